@@ -274,16 +274,16 @@ def run(F, rep):
     if not getattr(rep, 'nested', False):
         import core
         import c15
-        c15.run(F, core.Borrowed(rep, only={'C15.L3'}))
+        core.borrow(F, rep, c15, only={'C15.L3'})
         import c07
-        c07.run(F, core.Borrowed(rep, only={'C07.W1', 'C07.S1'}))
+        core.borrow(F, rep, c07, only={'C07.W1', 'C07.S1'})
         # flattenModel works on, and returns, a copy (clause shared with C06)
         import c06
-        c06.run(F, core.Borrowed(rep, only={'C06.P1', 'C06.P2'}))
+        core.borrow(F, rep, c06, only={'C06.P1', 'C06.P2'})
         # helpers that add a scratch child and take it out again (indexStackOf adds a dummy variable to locate a component) leave their argument
         # unchanged only if removal by pointer removes THAT object: the lookup tries identity before structural equality (clause shared with C09)
         import c09
-        c09.run(F, core.Borrowed(rep, only={'C09.P5'}))
+        core.borrow(F, rep, c09, only={'C09.P5'})
     rule_counters(F, rep, 'C12.K1')
     from engines import rule_address_order
     rule_address_order(F, rep, 'C12.A1', lambda g: '/src/' in g.file, 'the library')
